@@ -2078,7 +2078,27 @@ fn gen_c19(tier: &str, r: &Rng, o: &mut Out<'_>) {
             o.d(&format!("sec {} {}", if syntax { "s" } else { "c" }, join(&pk)));
         }
     }
-    o.meta("plans", "steady-state pushes (allocations counted by a global allocator, callbacks in quiet mode), hostile blocks pushed 12x (live heap bytes must plateau), ES payload / single-packet section ranges inside the pushed buffer");
+    // the same through the chain the library builds for PAT / PMT PIDs (de-duplication, reassembly,
+    // CRC gate): valid tables of every size that fits one packet and a few that do not, each with
+    // its own version so that de-duplication lets it through, in random packetisations, some
+    // damaged; what reaches the table processor is recorded with its address
+    let nt = if thorough { 6_000 } else { 300 };
+    for i in 0..nt {
+        let mut cc = 0u8;
+        let mut pk = vec![];
+        let mut ver = r.byte() & 31;
+        for _ in 0..(1 + r.below(5)) {
+            let nprog = if i % 3 == 0 { 1 + r.below(60) as usize } else { 1 + r.below(4) as usize };
+            let entries: Vec<(u16, u16)> = (0..nprog).map(|k| (1 + k as u16, 0x100 + k as u16)).collect();
+            let mut sec = pat_section(r.below(65536) as u16, ver, &entries);
+            if r.chance(1, 6) { let k = r.below(sec.len() as u64) as usize; sec[k] ^= 1 << r.below(8); }
+            let plan = if r.chance(1, 2) { simple_plan(sec.len()) } else { rand_plan(r, sec.len(), 8) };
+            pk.extend(packetize_section(r, 0x100, &mut cc, &sec, &plan));
+            if r.chance(2, 3) { ver = (ver + 1 + r.below(3) as u8) & 31; }
+        }
+        o.d(&format!("sec t {}", join(&pk)));
+    }
+    o.meta("plans", "steady-state pushes (allocations counted by a global allocator, callbacks in quiet mode), hostile blocks pushed 12x (live heap bytes must plateau), ES payload / single-packet section ranges inside the pushed buffer, tables through the PAT/PMT chain with the address of what reaches the processor");
 }
 
 /// fixed demonstration inputs for the recorded findings (used to build known_findings.json)
